@@ -77,6 +77,7 @@ pub fn replay_case(ctx: &mut Ctx, case: &J) -> Result<(), String> {
                 owned: case.get("owned").and_then(|b| b.boolean()).unwrap_or(false),
                 wrap: case.get("wrap").and_then(|b| b.boolean()).unwrap_or(false),
                 probe: case.get("probe").and_then(|b| b.boolean()).unwrap_or(false),
+                reconf: case.get("reconf").and_then(|b| b.boolean()).unwrap_or(false),
             };
             match monitor.as_str() {
                 "roundtrip" => roundtrip::check(ctx, &cfg, how),
